@@ -8,6 +8,7 @@ Local Open Scope N_scope.
 (* generic tactics                                                                           *)
 (* ---------------------------------------------------------------------------------------- *)
 Ltac st_cbn := cbn [set_head set_tail set_open set_slots set_rw set_sw set_freed set_released set_rnotif set_snotif set_rwakes set_swakes set_ppc set_ph set_pt set_pprev set_pitems set_pcode set_pout set_pwas set_pparked set_cpc set_ch set_ct set_cprev set_cwant set_ccode set_cgot set_cwas set_cparked set_pushed set_received set_discarded set_bad set_uaf set_npub set_hpub set_phc set_ctc head tail open slots rw sw freed released rnotif snotif rwakes swakes ppc ph pt pprev pitems pcode pout pwas pparked cpc ch ct cprev cwant ccode cgot cwas cparked pushed received discarded bad uaf npub hpub phc ctc
+  cfg_pre_s cfg_post_s cfg_pre_r cfg_post_r is1 Gen_C17.close_pre_wake_sender Gen_C17.close_post_wake_sender Gen_C17.close_pre_wake_receiver Gen_C17.close_post_wake_receiver
   notify_r notify_s p_acq_ret c_acq_ret do_wk wake_step reg_step w_reg w_waking w_slot touches wk_targets_r_p wk_targets_r_c wk_is_drop andb orb negb] in *.
 
 Ltac split_ifs :=
